@@ -29,8 +29,8 @@ ASSUMPTIONS = [
     "explicit types: the value sets observed by the reference engine within 12 iterations are declared for the finite variables the generator designed",
     "numeric options: deviation bound 1e4 * eps * (n+1) * max(1,|value|) relative - generous for a correct implementation, O(1) errors fire",
 ]
-TIMEOUT = {"quick": 45, "thorough": 240}
-DEADLINE = {"quick": 70, "thorough": 1700}
+TIMEOUT = {"quick": 30, "thorough": 240}
+DEADLINE = {"quick": 80, "thorough": 1700}
 MIN_DECIDING = {"quick": 15, "thorough": 150}
 NCASES = {"quick": 48, "thorough": 900}
 
